@@ -306,6 +306,23 @@ func solveUnit(vc *VC, opts SolveOpts) map[int]bool {
 	} else if vc.cover == "false" {
 		vc.coverSt = "no-return"
 	}
+	// must-fail probe: `false` must not be provable at the returns from the full
+	// hypothesis set (catches contradictory quantified assumptions)
+	if vc.cover != "" && vc.cover != "false" && vc.coverSt != "unsat" {
+		q := pre + "(assert " + vc.cover + ")\n(check-sat)\n"
+		ch := make(chan string, 2)
+		for _, sv := range []solverSpec{solvers[0], solvers[1]} {
+			go func(sv solverSpec) {
+				st, _, _, _ := rawQuery(sv, q, 1500)
+				ch <- st
+			}(sv)
+		}
+		for i := 0; i < 2; i++ {
+			if <-ch == "unsat" {
+				vc.coverSt = "unsat"
+			}
+		}
+	}
 	var sb strings.Builder
 	sb.WriteString(pre)
 	var idx []int
@@ -320,14 +337,17 @@ func solveUnit(vc *VC, opts SolveOpts) map[int]bool {
 		os.MkdirAll(opts.DumpDir, 0o755)
 		os.WriteFile(filepath.Join(opts.DumpDir, sanitize(vc.unit)+".smt2"), []byte(sb.String()), 0o644)
 	}
-	// pass 1 in chunks; a unit that already has many failures is not explored further
-	nfail := 0
+	// Pass 1 (primary solver, sliced hypotheses, short timeout) in chunks, each
+	// chunk followed by the portfolio re-check of what it left open. A unit that
+	// already has more than 10 *confirmed* failures is not explored further.
+	confirmed := 0
+	nre := 0
 	for lo := 0; lo < len(idx); lo += 25 {
 		hi := lo + 25
 		if hi > len(idx) {
 			hi = len(idx)
 		}
-		if nfail > 10 {
+		if confirmed > 10 {
 			for _, i := range idx[lo:hi] {
 				vc.obligs[i].Status, vc.obligs[i].Solver = "unknown", "not-attempted"
 			}
@@ -347,63 +367,60 @@ func solveUnit(vc *VC, opts SolveOpts) map[int]bool {
 			} else {
 				o.Status, o.Solver = "error", primary.name
 			}
-			if o.Status != "unsat" {
-				nfail++
-			}
 		}
-	}
-	// portfolio re-check of everything not discharged (bounded: one failing
-	// obligation already decides the unit)
-	var wg sync.WaitGroup
-	nre := 0
-	for _, i := range idx {
-		o := vc.obligs[i]
-		if o.Status == "unsat" && !opts.AllSolvers {
-			continue
-		}
-		if o.Status != "unsat" {
-			nre++
-			if nre > opts.maxRecheck() || o.Solver == "not-attempted" {
-				if o.Solver != "not-attempted" {
-					o.Status, o.Solver = "unknown", "not-rechecked"
-				}
+		var wg sync.WaitGroup
+		for _, i := range idx[lo:hi] {
+			o := vc.obligs[i]
+			if o.Status == "unsat" && !opts.AllSolvers {
 				continue
 			}
-		}
-		wg.Add(1)
-		go func(o *Oblig) {
-			defer wg.Done()
-			// first on the sliced hypothesis set, then on the full one
-			recheck(vc, hdr+vc.slicedAsserts(sl, o), o, opts)
 			if o.Status != "unsat" {
-				recheck(vc, vc.preambleFor(flags, o, false), o, opts)
-			}
-			if o.Status != "unsat" {
-				o.Model = ""
-				// candidate counterexample from the quantifier-free weakening of the
-				// hypotheses (to be confirmed by replay on the real code)
-				keys := vc.modelKeys(vc.e, vc.unit)
-				var values []string
-				for _, k := range keys {
-					values = append(values, k.Term)
+				nre++
+				if nre > opts.maxRecheck() {
+					o.Status, o.Solver = "unknown", "not-rechecked"
+					continue
 				}
-				st, model, _, _ := singleQuery(solvers[0], vc.preambleFor(flags, o, true), o, 5000, values)
-				if st == "sat" && len(keys) > 0 {
-					vals := parseModelOrdered(model)
-					mm := map[string]string{}
-					for i, k := range keys {
-						if i < len(vals) {
-							mm[k.Key] = vals[i]
-						}
+			}
+			wg.Add(1)
+			go func(o *Oblig) {
+				defer wg.Done()
+				// first on the sliced hypothesis set, then on the full one
+				recheck(vc, hdr+vc.slicedAsserts(sl, o), o, opts)
+				if o.Status != "unsat" {
+					recheck(vc, vc.preambleFor(flags, o, false), o, opts)
+				}
+				if o.Status != "unsat" {
+					o.Model = ""
+					// candidate counterexample from the quantifier-free weakening of the
+					// hypotheses (to be confirmed by replay on the real code)
+					keys := vc.modelKeys(vc.e, vc.unit)
+					var values []string
+					for _, k := range keys {
+						values = append(values, k.Term)
 					}
-					b, _ := json.Marshal(mm)
-					o.Model = string(b)
-					o.Note += "[candidate model from the quantifier-free weakening of the hypotheses]\n"
+					st, model, _, _ := singleQuery(solvers[0], vc.preambleFor(flags, o, true), o, 5000, values)
+					if st == "sat" && len(keys) > 0 {
+						vals := parseModelOrdered(model)
+						mm := map[string]string{}
+						for i, k := range keys {
+							if i < len(vals) {
+								mm[k.Key] = vals[i]
+							}
+						}
+						b, _ := json.Marshal(mm)
+						o.Model = string(b)
+						o.Note += "[candidate model from the quantifier-free weakening of the hypotheses]\n"
+					}
 				}
+			}(o)
+		}
+		wg.Wait()
+		for _, i := range idx[lo:hi] {
+			if vc.obligs[i].Status != "unsat" {
+				confirmed++
 			}
-		}(o)
+		}
 	}
-	wg.Wait()
 	if opts.DumpDir != "" {
 		for _, i := range idx {
 			o := vc.obligs[i]
